@@ -1,8 +1,657 @@
 package main
 
-import "golang.org/x/tools/go/ssa"
+import (
+	"fmt"
+	"go/types"
+	"path/filepath"
+	"sort"
+	"strings"
+	"unicode"
 
-// shapeDB: grammar-shape contracts (filled in by the shape generator)
-type shapeDB struct{}
+	"golang.org/x/tools/go/ssa"
+)
 
-func (s *shapeDB) call(e *enc, x *ssa.Call, recvType, method string, args []Term) bool { return false }
+// Grammar-shape contracts. For an error-free parse tree (assumption), the children of a node whose context type is K
+// match the regular expression of K's alternative(s) in the .g4 text. From that expression the generator derives, per
+// node term used in a function:
+//   - linear constraints on the number of children of each kind (cnt), hence which accessors return nil;
+//   - the possible kinds of the first three children and of the last child;
+//   - the possible kinds of the parent.
+// The semantics of the generated accessors (first / i-th / all children of a kind) and of the runtime's tree methods
+// are assumed (trusted base: ANTLR Go runtime and code generator).
+
+type shapeSet struct {
+	w   *World
+	dbs map[string]*shapeDB // generated parser package path -> shapes (nil entry = no grammar text)
+}
+
+const terminalKind = "TerminalNodeImpl"
+
+func (w *World) shapeSet() *shapeSet {
+	if w.shapes == nil {
+		w.shapes = &shapeSet{w: w, dbs: map[string]*shapeDB{}}
+	}
+	return w.shapes
+}
+
+func (s *shapeSet) forPkg(path string) *shapeDB {
+	if db, ok := s.dbs[path]; ok {
+		return db
+	}
+	s.dbs[path] = nil
+	if !strings.HasPrefix(path, modPath+"/languages/") {
+		return nil
+	}
+	dir := filepath.Join(repoDir, strings.TrimPrefix(path, modPath+"/"))
+	db, err := loadShapes(path, dir)
+	if err != nil {
+		s.w.shapeNotes = append(s.w.shapeNotes, fmt.Sprintf("no grammar shapes for %s: %v", path, err))
+		return nil
+	}
+	if p := s.w.ByPath[path]; p != nil && p.Types != nil {
+		db.crossCheck(p.Types)
+	}
+	// entry points: rules the repository invokes on the parser object
+	for _, fn := range s.w.allRepoFuncs() {
+		for _, b := range fn.Blocks {
+			for _, in := range b.Instrs {
+				c, ok := in.(*ssa.Call)
+				if !ok {
+					continue
+				}
+				cal := c.Common().StaticCallee()
+				if cal == nil || cal.Pkg == nil || cal.Pkg.Pkg.Path() != path || cal.Signature.Recv() == nil {
+					continue
+				}
+				if !strings.HasSuffix(nodeTypeName(cal.Signature.Recv().Type()), "Parser") {
+					continue
+				}
+				rn := strings.ToLower(cal.Name()[:1]) + cal.Name()[1:]
+				if _, ok := db.g.rules[rn]; ok && (fn.Pkg == nil || fn.Pkg.Pkg.Path() != path) {
+					db.start[rn] = true
+				}
+			}
+		}
+	}
+	s.dbs[path] = db
+	return db
+}
+
+// crossCheck: the accessor methods the generated code declares on each context type must be the ones the grammar text
+// implies; a context type for which they differ gets no shape facts (the .g4 is then not the source of the generated code).
+func (db *shapeDB) crossCheck(pkg *types.Package) {
+	sc := pkg.Scope()
+	for name, cs := range db.ctx {
+		tn, ok := sc.Lookup(name).(*types.TypeName)
+		if !ok {
+			db.bad[name] = "no such type in the generated package"
+			continue
+		}
+		ms := types.NewMethodSet(types.NewPointer(tn.Type()))
+		have := map[string]bool{}
+		for i := 0; i < ms.Len(); i++ {
+			f := ms.At(i).Obj().(*types.Func)
+			if f.Pkg() != pkg {
+				continue
+			}
+			sig := f.Type().(*types.Signature)
+			if sig.Results().Len() != 1 {
+				continue
+			}
+			rs := sig.Results().At(0).Type().String()
+			if strings.HasSuffix(rs, "antlr.TerminalNode") || strings.HasSuffix(rs, "v4.TerminalNode") || (strings.Contains(rs, pkg.Path()+".I") && strings.HasSuffix(rs, "Context")) {
+				if strings.HasPrefix(f.Name(), "Get") { // label getters
+					continue
+				}
+				have[strings.TrimPrefix(f.Name(), "All")] = true
+			}
+		}
+		want := map[string]bool{}
+		for _, s := range cs.syms {
+			if s == "ANY" || strings.HasPrefix(s, "LIT:") || s == "EOF" {
+				if s == "EOF" {
+					want["EOF"] = true
+				}
+				continue
+			}
+			want[capFirst(s)] = true
+		}
+		var diff []string
+		for k := range want {
+			if !have[k] {
+				diff = append(diff, "-"+k)
+			}
+		}
+		for k := range have {
+			if !want[k] {
+				diff = append(diff, "+"+k)
+			}
+		}
+		if len(diff) > 0 {
+			sort.Strings(diff)
+			db.bad[name] = "accessors differ from the grammar text: " + strings.Join(diff, " ")
+		}
+	}
+}
+
+// ---------- encoder side
+
+func (e *enc) symTag(s string) int {
+	if e.syms == nil {
+		e.syms = map[string]int{}
+	}
+	if n, ok := e.syms[s]; ok {
+		return n
+	}
+	n := len(e.syms) + 1
+	e.syms[s] = n
+	return n
+}
+
+func (e *enc) fKind() string   { return e.uf("kind", []string{"Int"}, "Int") }
+func (e *enc) fNchild() string { return e.uf("nchild", []string{"Int"}, "Int") }
+func (e *enc) fChild() string  { return e.uf("child", []string{"Int", "Int"}, "Int") }
+func (e *enc) fParent() string { return e.uf("parentOf", []string{"Int"}, "Int") }
+func (e *enc) fCnt() string    { return e.uf("cnt", []string{"Int", "Int"}, "Int") }
+func (e *enc) fNth() string    { return e.uf("nth", []string{"Int", "Int", "Int"}, "Int") }
+func (e *enc) fTokType() string { return e.uf("toktype", []string{"Int"}, "Int") }
+func (e *enc) fAux() string    { return e.uf("shapeaux", []string{"Int", "Int"}, "Int") }
+
+// candKinds: the context types a node value may have, from its static Go type or from where it was obtained
+func (e *enc) candKinds(v ssa.Value, t Term) (*shapeDB, []string) {
+	ty := v.Type()
+	if p, ok := ty.(*types.Pointer); ok {
+		ty = p.Elem()
+	}
+	if n, ok := ty.(*types.Named); ok && n.Obj().Pkg() != nil {
+		if db := e.w.shapeSet().forPkg(n.Obj().Pkg().Path()); db != nil {
+			name := n.Obj().Name()
+			if _, isStruct := n.Underlying().(*types.Struct); isStruct {
+				if _, ok := db.ctx[name]; ok {
+					// the dynamic type of a non-nil *XContext is XContext
+					e.once("shape#static#"+name+"#"+t, func() {
+						e.assume(fmt.Sprintf("(=> (not (= %s 0)) (= (%s %s) %d))", t, e.fKind(), t, e.kindTag(name)))
+					})
+					return db, []string{name}
+				}
+			} else if strings.HasPrefix(name, "I") && strings.HasSuffix(name, "Context") {
+				rule := strings.TrimSuffix(name[1:], "Context")
+				rule = strings.ToLower(rule[:1]) + rule[1:]
+				if ks, ok := db.kinds[rule]; ok {
+					return db, ks
+				}
+			}
+		}
+	}
+	if c, ok := e.nodeCand[t]; ok {
+		return c.db, c.kinds
+	}
+	return nil, nil
+}
+
+type nodeCand struct {
+	db    *shapeDB
+	kinds []string
+}
+
+func (e *enc) setCand(t Term, db *shapeDB, kinds []string) {
+	if e.nodeCand == nil {
+		e.nodeCand = map[Term]nodeCand{}
+	}
+	e.nodeCand[t] = nodeCand{db, kinds}
+}
+
+// symMatch: node c is a child produced by grammar symbol s
+func (e *enc) symMatch(db *shapeDB, c Term, s string) Term {
+	if s == "ANY" || strings.HasPrefix(s, "LIT:") {
+		return fmt.Sprintf("(= (%s %s) %d)", e.fKind(), c, e.kindTag(terminalKind))
+	}
+	if unicode.IsUpper(rune(s[0])) {
+		return fmt.Sprintf("(and (= (%s %s) %d) (= (%s %s) %d))", e.fKind(), c, e.kindTag(terminalKind), e.fTokType(), c, e.symTag(s))
+	}
+	var ds []string
+	for _, k := range db.kinds[s] {
+		ds = append(ds, fmt.Sprintf("(= (%s %s) %d)", e.fKind(), c, e.kindTag(k)))
+	}
+	if len(ds) == 0 {
+		return "true"
+	}
+	if len(ds) == 1 {
+		return ds[0]
+	}
+	return "(or " + strings.Join(ds, " ") + ")"
+}
+
+// countFacts: linear constraints on the numbers of children of node n, were it of context type K
+func (e *enc) countFacts(db *shapeDB, cs *ctxShape, n Term) Term {
+	sums := map[string][]string{}
+	var cons []string
+	var walk func(g *gNode, mult string)
+	aux := func(g *gNode, slot int) string {
+		if slot >= 128 {
+			panic("grammar alternative with more than 128 branches")
+		}
+		return fmt.Sprintf("(%s %s %d)", e.fAux(), n, g.id*128+slot+e.symTag("aux:"+db.pkgPath)*100000000)
+	}
+	walk = func(g *gNode, mult string) {
+		if g.never {
+			cons = append(cons, fmt.Sprintf("(= %s 0)", mult))
+		}
+		switch g.kind {
+		case "sym":
+			sums[g.sym] = append(sums[g.sym], mult)
+		case "seq":
+			for _, k := range g.kids {
+				walk(k, mult)
+			}
+		case "opt":
+			m := aux(g, 0)
+			cons = append(cons, fmt.Sprintf("(<= 0 %s)", m), fmt.Sprintf("(<= %s %s)", m, mult))
+			walk(g.kids[0], m)
+		case "star":
+			m := aux(g, 0)
+			cons = append(cons, fmt.Sprintf("(<= 0 %s)", m), fmt.Sprintf("(=> (= %s 0) (= %s 0))", mult, m))
+			walk(g.kids[0], m)
+		case "plus":
+			m := aux(g, 0)
+			cons = append(cons, fmt.Sprintf("(<= %s %s)", mult, m), fmt.Sprintf("(=> (= %s 0) (= %s 0))", mult, m))
+			walk(g.kids[0], m)
+		case "alt":
+			var ms []string
+			for i, k := range g.kids {
+				m := aux(g, i)
+				ms = append(ms, m)
+				cons = append(cons, fmt.Sprintf("(<= 0 %s)", m))
+				walk(k, m)
+			}
+			cons = append(cons, fmt.Sprintf("(= (+ %s 0) %s)", strings.Join(ms, " "), mult))
+		}
+	}
+	walk(cs.body, "1")
+	var all []string
+	for _, s := range cs.syms {
+		sum := "(+ " + strings.Join(sums[s], " ") + " 0)"
+		cons = append(cons, fmt.Sprintf("(= (%s %s %d) %s)", e.fCnt(), n, e.symTag(s), sum))
+		all = append(all, sums[s]...)
+	}
+	cons = append(cons, fmt.Sprintf("(= (%s %s) (+ %s 0))", e.fNchild(), n, strings.Join(all, " ")))
+	return "(and " + strings.Join(cons, " ") + ")"
+}
+
+// prefixFacts: kinds of the first three children and of the last child
+func (e *enc) prefixFacts(db *shapeDB, cs *ctxShape, n Term) Term {
+	var parts []string
+	if cs.preOK && len(cs.pre) > 0 {
+		var ws []string
+		for _, w := range cs.pre {
+			var cj []string
+			if len(w) < 3 {
+				cj = append(cj, fmt.Sprintf("(= (%s %s) %d)", e.fNchild(), n, len(w)))
+			} else {
+				cj = append(cj, fmt.Sprintf("(>= (%s %s) 3)", e.fNchild(), n))
+			}
+			for i, s := range w {
+				cj = append(cj, e.symMatch(db, fmt.Sprintf("(%s %s %d)", e.fChild(), n, i), s))
+			}
+			ws = append(ws, "(and "+strings.Join(cj, " ")+")")
+		}
+		parts = append(parts, "(or "+strings.Join(ws, " ")+")")
+	}
+	if len(cs.suf) > 0 {
+		var ws []string
+		for _, w := range cs.suf {
+			if len(w) == 0 {
+				ws = append(ws, fmt.Sprintf("(= (%s %s) 0)", e.fNchild(), n))
+			} else {
+				ws = append(ws, e.symMatch(db, fmt.Sprintf("(%s %s (- (%s %s) 1))", e.fChild(), n, e.fNchild(), n), w[0]))
+			}
+		}
+		parts = append(parts, "(or "+strings.Join(ws, " ")+")")
+	}
+	if len(parts) == 0 {
+		return "true"
+	}
+	return "(and " + strings.Join(parts, " ") + ")"
+}
+
+// nodeFacts: everything known about the children of node term n, for each context type it may have (once per term)
+func (e *enc) nodeFacts(db *shapeDB, kinds []string, n Term, withPrefix bool) {
+	if db == nil {
+		return
+	}
+	for _, k := range kinds {
+		cs := db.ctx[k]
+		if cs == nil || db.bad[k] != "" {
+			if db.bad[k] != "" {
+				e.w.noteOnce("shape facts withheld for " + k + ": " + db.bad[k])
+			}
+			continue
+		}
+		guard := fmt.Sprintf("(= (%s %s) %d)", e.fKind(), n, e.kindTag(k))
+		e.once("shape#cnt#"+k+"#"+n, func() {
+			for _, p := range db.pruned {
+				e.assumps["grammar branch the parser never produces (shadowed by an earlier alternative under ANTLR's lowest-alternative rule): "+p] = true
+			}
+			e.assumps["parse trees are error-free: the children of every rule context match the alternative of its grammar rule ("+filepath.Base(db.pkgPath)+" grammar text cross-checked against the generated accessors)"] = true
+			e.assume(fmt.Sprintf("(=> (and (not (= %s 0)) %s) %s)", n, guard, e.countFacts(db, cs, n)))
+		})
+		if withPrefix {
+			e.once("shape#pre#"+k+"#"+n, func() {
+				e.assume(fmt.Sprintf("(=> (and (not (= %s 0)) %s) %s)", n, guard, e.prefixFacts(db, cs, n)))
+			})
+		}
+	}
+	e.termFacts(n)
+}
+
+// termFacts: a terminal node has no children
+func (e *enc) termFacts(n Term) {
+	e.once("shape#term#"+n, func() {
+		e.assume(fmt.Sprintf("(=> (= (%s %s) %d) (= (%s %s) 0))", e.fKind(), n, e.kindTag(terminalKind), e.fNchild(), n))
+		e.assume(fmt.Sprintf("(>= (%s %s) 0)", e.fNchild(), n))
+	})
+}
+
+func (e *enc) kindIn(n Term, kinds []string) Term {
+	var ds []string
+	for _, k := range kinds {
+		ds = append(ds, fmt.Sprintf("(= (%s %s) %d)", e.fKind(), n, e.kindTag(k)))
+	}
+	if len(ds) == 0 {
+		return "true"
+	}
+	if len(ds) == 1 {
+		return ds[0]
+	}
+	return "(or " + strings.Join(ds, " ") + ")"
+}
+
+
+// call: a method of a generated context type or of the runtime's tree interfaces on receiver args[0]
+func (s *shapeSet) call(e *enc, x *ssa.Call, recvType, method string, args []Term) bool {
+	if len(args) == 0 {
+		return false
+	}
+	c := x.Common()
+	var recvVal ssa.Value
+	if c.IsInvoke() {
+		recvVal = c.Value
+	} else if len(c.Args) > 0 {
+		recvVal = c.Args[0]
+	}
+	if recvVal == nil {
+		return false
+	}
+	n := args[0]
+	db, kinds := e.candKinds(recvVal, n)
+	sig := c.Signature()
+	if sig.Results().Len() != 1 {
+		return false
+	}
+	rty := sig.Results().At(0).Type()
+	switch method {
+	case "GetChildCount":
+		e.nodeFacts(db, kinds, n, true)
+		e.termFacts(n)
+		e.fr.val[x] = e.define("nchild", "Int", fmt.Sprintf("(%s %s)", e.fNchild(), n))
+		return true
+	case "GetChild":
+		if len(args) != 2 {
+			return false
+		}
+		e.nodeFacts(db, kinds, n, true)
+		e.termFacts(n)
+		r := e.define("child", "Int", fmt.Sprintf("(%s %s %s)", e.fChild(), n, args[1]))
+		e.assumps["antlr runtime: GetChild(i) is the i-th child, nil when i is out of range; a child's parent is the node"] = true
+		e.assume(fmt.Sprintf("(= (= %s 0) (not (and (<= 0 %s) (< %s (%s %s)))))", r, args[1], args[1], e.fNchild(), n))
+		e.assume(fmt.Sprintf("(=> (not (= %s 0)) (= (%s %s) %s))", r, e.fParent(), r, n))
+		// kinds of any child: the symbols of the parent's alternatives
+		if db != nil && len(kinds) > 0 && len(kinds) <= 12 {
+			var ck []string
+			seen := map[string]bool{}
+			var per []string
+			for _, k := range kinds {
+				cs := db.ctx[k]
+				if cs == nil || db.bad[k] != "" {
+					per = nil
+					ck = nil
+					break
+				}
+				var ms []string
+				for _, sname := range cs.syms {
+					ms = append(ms, e.symMatch(db, r, sname))
+					if unicode.IsLower(rune(sname[0])) {
+						for _, kk := range db.kinds[sname] {
+							if !seen[kk] {
+								seen[kk] = true
+								ck = append(ck, kk)
+							}
+						}
+					}
+				}
+				if len(ms) == 0 {
+					ms = []string{"false"}
+				}
+				per = append(per, fmt.Sprintf("(=> (= (%s %s) %d) (or %s false))", e.fKind(), n, e.kindTag(k), strings.Join(ms, " ")))
+			}
+			for _, p := range per {
+				e.assume(fmt.Sprintf("(=> (not (= %s 0)) %s)", r, p))
+			}
+			if len(ck) > 0 && len(ck) <= 60 {
+				e.setCand(r, db, ck)
+			}
+		}
+		e.fr.val[x] = r
+		return true
+	case "GetText":
+		if len(args) != 1 {
+			return false
+		}
+		f := e.uf("nm_GetText_Int_0", []string{"Int"}, "String")
+		r := e.define("text", "String", fmt.Sprintf("(%s %s)", f, n))
+		// the text of a node is the concatenation of its tokens: non-empty unless its rule can match nothing
+		nonEmpty := false
+		if db != nil && len(kinds) > 0 {
+			nonEmpty = true
+			for _, k := range kinds {
+				if cs := db.ctx[k]; cs == nil || db.nullable[cs.rule] {
+					nonEmpty = false
+				}
+			}
+		}
+		if nonEmpty {
+			e.assumps["antlr runtime: GetText() of a rule context is the concatenation of its tokens' text (non-empty when the rule cannot match nothing; no token of these grammars has empty text)"] = true
+			e.assume(fmt.Sprintf("(=> (not (= %s 0)) (> (str.len %s) 0))", n, r))
+		}
+		e.fr.val[x] = r
+		return true
+	case "GetChildren":
+		if len(args) != 1 {
+			return false
+		}
+		rs := e.so.of(rty)
+		if !strings.HasPrefix(rs, "Slice_") {
+			return false
+		}
+		e.nodeFacts(db, kinds, n, true)
+		e.termFacts(n)
+		r := e.fresh("children", rs)
+		e.assume(fmt.Sprintf("(and (= (len_%[1]s %[2]s) (%[3]s %[4]s)) (forall ((i Int)) (! (=> (and (<= 0 i) (< i (%[3]s %[4]s))) (and (= (select (arr_%[1]s %[2]s) i) (%[5]s %[4]s i)) (not (= (select (arr_%[1]s %[2]s) i) 0)))) :pattern ((select (arr_%[1]s %[2]s) i)))))", rs, r, e.fNchild(), n, e.fChild()))
+		e.fr.val[x] = r
+		return true
+	case "GetStart", "GetStop", "GetSymbol":
+		if len(args) != 1 {
+			return false
+		}
+		f := e.uf("nm_"+method+"_Int_0", []string{"Int"}, "Int")
+		r := e.define("tok", "Int", fmt.Sprintf("(%s %s)", f, n))
+		e.assumps["antlr runtime: a rule context of an error-free tree has a start token; it has a stop token unless its rule can match nothing; a terminal node has a symbol"] = true
+		nonnil := method != "GetStop"
+		if method == "GetStop" && db != nil && len(kinds) > 0 {
+			nonnil = true
+			for _, k := range kinds {
+				if cs := db.ctx[k]; cs == nil || db.nullable[cs.rule] {
+					nonnil = false
+				}
+			}
+		}
+		if nonnil {
+			e.assume(fmt.Sprintf("(=> (not (= %s 0)) (not (= %s 0)))", n, r))
+		}
+		e.fr.val[x] = r
+		return true
+	case "GetParent":
+		r := e.define("parent", "Int", fmt.Sprintf("(%s %s)", e.fParent(), n))
+		if db != nil {
+			var pk []string
+			seen := map[string]bool{}
+			for _, k := range kinds {
+				cs := db.ctx[k]
+				if cs == nil {
+					continue
+				}
+				ps := db.parents[k]
+				e.assumps["parse trees are rooted at the grammar's start rule: every other rule context has a parent"] = true
+				cond := e.kindIn(r, ps)
+				if len(ps) == 0 {
+					cond = "true"
+				}
+				if db.isStart(cs.rule) {
+					e.assume(fmt.Sprintf("(=> (and (not (= %s 0)) (= (%s %s) %d) (not (= %s 0))) %s)", n, e.fKind(), n, e.kindTag(k), r, cond))
+				} else {
+					e.assume(fmt.Sprintf("(=> (and (not (= %s 0)) (= (%s %s) %d)) (and (not (= %s 0)) %s))", n, e.fKind(), n, e.kindTag(k), r, cond))
+				}
+				for _, p := range ps {
+					if !seen[p] {
+						seen[p] = true
+						pk = append(pk, p)
+					}
+				}
+			}
+			if len(pk) > 0 && len(pk) <= 60 {
+				e.setCand(r, db, pk)
+			}
+		}
+		e.fr.val[x] = r
+		return true
+	}
+	if db == nil || len(kinds) == 0 {
+		return false
+	}
+	// generated accessors: Y(), Y(i), AllY(), TOKEN(), TOKEN(i), AllTOKEN()
+	all := strings.HasPrefix(method, "All")
+	base := strings.TrimPrefix(method, "All")
+	sym := ""
+	for _, k := range kinds {
+		cs := db.ctx[k]
+		if cs == nil {
+			continue
+		}
+		for _, sname := range cs.syms {
+			if capFirst(sname) == base {
+				sym = sname
+			}
+		}
+	}
+	if sym == "" {
+		return false
+	}
+	for _, k := range kinds {
+		if db.bad[k] != "" {
+			e.w.noteOnce("shape facts withheld for " + k + ": " + db.bad[k])
+			return false
+		}
+	}
+	isTok := unicode.IsUpper(rune(sym[0]))
+	rs := e.so.of(rty)
+	e.nodeFacts(db, kinds, n, false)
+	e.assumps["generated accessors: X() is the first child of kind X or nil, X(i) the i-th or nil, AllX() all of them in order"] = true
+	sid := e.symTag(sym)
+	cnt := fmt.Sprintf("(%s %s %d)", e.fCnt(), n, sid)
+	childFacts := func(r Term) Term {
+		if isTok {
+			return fmt.Sprintf("(and (= (%s %s) %s) %s)", e.fParent(), r, n, e.symMatch(db, r, sym))
+		}
+		return fmt.Sprintf("(and (= (%s %s) %s) %s)", e.fParent(), r, n, e.kindIn(r, db.kinds[sym]))
+	}
+	switch {
+	case all && strings.HasPrefix(rs, "Slice_"):
+		r := e.fresh("all_"+base, rs)
+		e.assume(fmt.Sprintf("(and (= (len_%[1]s %[2]s) %[3]s) (>= %[3]s 0) (not (nil_%[1]s %[2]s)))", rs, r, cnt))
+		el := fmt.Sprintf("(select (arr_%s %s) i)", rs, r)
+		e.assume(fmt.Sprintf("(forall ((i Int)) (! (=> (and (<= 0 i) (< i %s)) (and (not (= %s 0)) (= %s (%s %s %d i)) %s)) :pattern (%s)))", cnt, el, el, e.fNth(), n, sid, childFacts(el), el))
+		e.fr.val[x] = r
+		return true
+	case !all && rs == "Int" && len(args) == 1:
+		r := e.define("acc_"+base, "Int", fmt.Sprintf("(%s %s %d 0)", e.fNth(), n, sid))
+		e.assume(fmt.Sprintf("(= (= %s 0) (< %s 1))", r, cnt))
+		e.assume(fmt.Sprintf("(=> (not (= %s 0)) %s)", r, childFacts(r)))
+		if !isTok {
+			e.setCand(r, db, db.kinds[sym])
+		}
+		e.fr.val[x] = r
+		return true
+	case !all && rs == "Int" && len(args) == 2:
+		r := e.define("acc_"+base, "Int", fmt.Sprintf("(%s %s %d %s)", e.fNth(), n, sid, args[1]))
+		e.assume(fmt.Sprintf("(= (= %s 0) (not (and (<= 0 %s) (< %s %s))))", r, args[1], args[1], cnt))
+		e.assume(fmt.Sprintf("(=> (not (= %s 0)) %s)", r, childFacts(r)))
+		if !isTok {
+			e.setCand(r, db, db.kinds[sym])
+		}
+		e.fr.val[x] = r
+		return true
+	}
+	return false
+}
+
+// typeNameOf: reflect.TypeOf(v).String() for a tree node v: "*parser.XContext" / "*antlr.TerminalNodeImpl"
+func (e *enc) typeNameOf(v Term) Term {
+	f := e.uf("TypeNameF", []string{"Int"}, "String")
+	g := e.uf("TagOfNameF", []string{"String"}, "Int")
+	e.once("typename#ax", func() {
+		e.decls = append(e.decls, fmt.Sprintf("(assert (forall ((k Int)) (! (= (%s (%s k)) k) :pattern ((%s k)))))", g, f, f))
+		e.assumps["reflect.TypeOf(node).String() is \"*parser.<ContextType>\" (\"*antlr.TerminalNodeImpl\" for tokens); distinct types have distinct names"] = true
+	})
+	var names []string
+	for _, db := range e.w.shapeSet().dbs {
+		if db == nil {
+			continue
+		}
+		for n := range db.ctx {
+			names = append(names, n)
+		}
+	}
+	sort.Strings(names)
+	for _, n := range uniq(names) {
+		n := n
+		e.once("typename#"+n, func() {
+			e.decls = append(e.decls, fmt.Sprintf("(assert (= (%s %d) \"*parser.%s\"))", f, e.kindTag(n), n))
+		})
+	}
+	e.once("typename#terminal", func() {
+		e.decls = append(e.decls, fmt.Sprintf("(assert (= (%s %d) \"*antlr.TerminalNodeImpl\"))", f, e.kindTag(terminalKind)))
+	})
+	return fmt.Sprintf("(%s (%s %s))", f, e.fKind(), v)
+}
+
+func (db *shapeDB) isStart(rule string) bool {
+	if len(db.start) == 0 {
+		// without usage information: rules no other rule refers to
+		for _, ks := range db.kinds[rule] {
+			if len(db.parents[ks]) > 0 {
+				return false
+			}
+		}
+		return true
+	}
+	return db.start[rule]
+}
+
+func (w *World) noteOnce(s string) {
+	for _, x := range w.shapeNotes {
+		if x == s {
+			return
+		}
+	}
+	w.shapeNotes = append(w.shapeNotes, s)
+}
